@@ -51,7 +51,8 @@ def _worker(args):
     budget = int(os.environ.get('VERIF_CASE_TIMEOUT', '1800' if tier == 'thorough' else '600'))
     try:
         signal.signal(signal.SIGALRM, _alarm)
-        signal.alarm(budget)
+        # repeating: code under test (or a library) may swallow the first one in a bare `except:` -- it is raised again every 20 s until the case ends
+        signal.setitimer(signal.ITIMER_REAL, budget, 20)
     except (ValueError, AttributeError):
         pass
     try:
@@ -61,26 +62,27 @@ def _worker(args):
         mod, kw_ = _common.resolve(prop, kwargs)
         with lift.trace_functions():
             res = mod.run_case(case_id, tier=tier, seed=seed, **kw_)
+        signal.setitimer(signal.ITIMER_REAL, 0)
         res['prop'] = prop
         res['wall_s'] = time.time() - t0
         res['kwargs'] = kwargs
-        signal.alarm(0)
         return res
     except lpsem_EnoughCandidates() as e:
         res = e.rec.result()
         res['wall_s'] = time.time() - t0
         res['kwargs'] = kwargs
         try:
-            signal.alarm(0)
+            signal.setitimer(signal.ITIMER_REAL, 0)
         except Exception:  # noqa: BLE001
             pass
         return res
     except CaseTimeout:
+        signal.setitimer(signal.ITIMER_REAL, 0)
         return dict(prop=prop, case=case_id, error='case exceeded its wall-clock budget of %d s (inconclusive, never a pass)' % budget, tb='',
                     wall_s=time.time() - t0, kwargs=kwargs)
     except BaseException as e:  # noqa: BLE001 - report, never swallow
         try:
-            signal.alarm(0)
+            signal.setitimer(signal.ITIMER_REAL, 0)
         except Exception:  # noqa: BLE001
             pass
         return dict(prop=prop, case=case_id, error='%s: %s' % (type(e).__name__, e), tb=traceback.format_exc(),
